@@ -297,33 +297,57 @@ def differential(engine, cases, result, prop, tier, known=None, keep_prefix=1, n
     return viol
 
 
+class SessionAbort(Exception):
+    pass
+
+
 class Session:
     """Interactive run of nvdrive: the generator sees each output before choosing the next operation."""
 
     def __init__(self, engine):
         self.p = subprocess.Popen([NVDRIVE], stdin=subprocess.PIPE, stdout=subprocess.PIPE, stderr=subprocess.DEVNULL, text=True, env=GOENV, bufsize=1)
         self.engine = engine
+        self.dead = False
         self.lines = []
         self.outs = []
         self._raw('engine ' + engine)
 
     def _raw(self, line):
-        self.p.stdin.write(line + '\n')
-        self.p.stdin.flush()
+        if self.dead:
+            return '<no output: implementation process ended>'
+        import select
+        try:
+            self.p.stdin.write(line + '\n')
+            self.p.stdin.flush()
+        except Exception:
+            self.dead = True
+            return '<no output: implementation process ended>'
+        r, _, _ = select.select([self.p.stdout], [], [], 60)
+        if not r:
+            self.dead = True
+            self.p.kill()
+            return '<no output within 60 s: implementation hangs>'
         o = self.p.stdout.readline()
         if not o:
+            self.dead = True
             return '<no output: implementation process ended>'
         return o.rstrip('\n')
 
     def new_case(self):
         self.lines = []
         self.outs = []
+        self.nsent = 0
+        if self.dead:
+            self.__init__(self.engine)
         self._raw('case 0')
 
     def send(self, line):
         o = self._raw(line)
         self.lines.append(line)
         self.outs.append(o)
+        self.nsent = getattr(self, 'nsent', 0) + 1
+        if o.startswith(('<no output', 'hang', 'thread ', 'deadlock')) or self.nsent > 20000:
+            raise SessionAbort(o)
         return o
 
     def close(self):
@@ -343,7 +367,10 @@ def differential_interactive(engine, gen, n, rng, tier, result, nontrivial=None,
     recs = []
     for _ in range(n):
         sess.new_case()
-        gen(rng, tier, sess)
+        try:
+            gen(rng, tier, sess)
+        except SessionAbort:
+            pass
         recs.append((sess.lines, sess.outs))
     sess.close()
     text = 'engine %s\n' % engine
